@@ -112,15 +112,24 @@ def segToSeg3 (F : DOps α) (A B C D : P3 α) : α :=
   if eq3 F A B then pointToSeg3 F A C D
   else if eq3 F C D then pointToSeg3 F C A B
   else
-    let a := vdot F A B A B
     let b := vdot F A B C D
     let c := vdot F C D C D
     let d := vdot F A B C A
     let e := vdot F C D C A
-    let denom := F.sub (F.mul a c) (F.mul b b)
+    -- closest-approach parameters from cross products (the D15 repair): n = u x v, r = C - A
+    let ux := F.sub B.1 A.1; let uy := F.sub B.2.1 A.2.1; let uz := F.sub B.2.2 A.2.2
+    let vx := F.sub D.1 C.1; let vy := F.sub D.2.1 C.2.1; let vz := F.sub D.2.2 C.2.2
+    let rx := F.sub C.1 A.1; let ry := F.sub C.2.1 A.2.1; let rz := F.sub C.2.2 A.2.2
+    let nx := F.sub (F.mul uy vz) (F.mul uz vy)
+    let ny := F.sub (F.mul uz vx) (F.mul ux vz)
+    let nz := F.sub (F.mul ux vy) (F.mul uy vx)
+    let denom := F.add (F.add (F.mul nx nx) (F.mul ny ny)) (F.mul nz nz)
+    let tri (px py pz qx qy qz : α) : α :=   -- ((p x q) . n)
+      F.add (F.add (F.mul (F.sub (F.mul py qz) (F.mul pz qy)) nx) (F.mul (F.sub (F.mul pz qx) (F.mul px qz)) ny))
+        (F.mul (F.sub (F.mul px qy) (F.mul py qx)) nz)
     let (s, t) : α × α :=
       if fle' F denom F.zero then (F.zero, if F.lt c b then F.div d b else F.div e c)
-      else (F.div (F.sub (F.mul b e) (F.mul c d)) denom, F.div (F.sub (F.mul a e) (F.mul b d)) denom)
+      else (F.div (tri rx ry rz vx vy vz) denom, F.div (tri rx ry rz ux uy uz) denom)
     if F.lt s F.zero || F.lt F.one s || F.lt t F.zero || F.lt F.one t then
       fmin2 F (fmin2 F (pointToSeg3 F A C D) (pointToSeg3 F B C D))
         (fmin2 F (pointToSeg3 F C A B) (pointToSeg3 F D A B))
